@@ -295,8 +295,10 @@ func checkStop(c StopCase) pbt.Verdict {
 	// parent_only legitimately leaves the descendants alone; they hold the output pipes of the
 	// managed process open, so the harness ends them itself once the parent is gone (after
 	// noting that they were still alive and had seen no signal)
+	// (with a shutdown.command the docs promise the opposite: if it fails or times out the whole
+	// group is killed "irrespective of the shutdown.parent_only option", so nothing is reaped here)
 	reaped := make(chan string, 1)
-	if c.ParentOnly {
+	if c.ParentOnly && c.Command == "" {
 		go func() {
 			for i := 0; i < 1500 && alive(pids["p"]); i++ {
 				time.Sleep(10 * time.Millisecond)
@@ -488,7 +490,7 @@ func genStop(t *rapid.T) StopCase {
 			c.Timeout = 1
 		}
 	}
-	if c.Command == "" && pbt.Pct(t, 25) {
+	if (c.Command == "" && pbt.Pct(t, 25)) || (c.Command != "" && pbt.Pct(t, 50)) {
 		c.ParentOnly = true
 		// members left behind by parent_only must not be asked to die by anything else
 	}
